@@ -86,6 +86,13 @@ def run(ctx):
         hs, desc = viewer_handshake(r, pwreq, odd=(r.random() < .1))
         ctx.count("viewer_version_odd" if desc.startswith("odd") else "viewer_version_known")
         vmsgs = gen_viewer_messages(r, r.randint(0, 10), allow_unrecordable=(r.random() < .3))
+        if si % 20 == 0:
+            # corpus: key events the recorder cannot write - keysyms above the Unicode range, in particular those with bit 31
+            # set (chr() raises OverflowError there, not ValueError), as KeyEvent and as QEMU extended key event
+            ks = [0x80000000, 0xFFFFFFFF, 0x110000, 0x7FFFFFFF][(si // 20) % 4]
+            vmsgs.insert(r.randint(0, len(vmsgs)), (struct.pack("!BBxxI", 4, 1, ks), ("key", ks, True)))
+            vmsgs.insert(r.randint(0, len(vmsgs)), (struct.pack("!BBHII", 255, 0, 1, ks, 30), ("key", ks, True)))
+            ctx.count("corpus_unrecordable_keysyms")
         malformed = r.random() < .12
         if malformed:
             bad = r.choice([bytes([r.choice([1, 7, 8, 9, 100, 150, 254])]) + bytes(r.randrange(256) for _ in range(r.randint(0, 6))), struct.pack("!BB", 255, r.choice([1, 2, 200])) + bytes(10)])
